@@ -136,7 +136,7 @@ def c27(ctx):
     ctx.cov["distinct_nontrivial"] = len(distinct)
     ctx.cov["rule"] = ("all proof classes of Merkle.tla (depth 0..17, positions shorter/equal/longer, position 4, non-canonical leaf / sibling limb "
                        "p, p+1, 2^64-1, root = fold or one single corruption among root / sibling / in-range position / leaf) realised as real "
-                       "32-byte paths with sorted-rank positions, every third path with one level whose siblings contain the running hash itself (tie: "
+                       "32-byte paths with sorted-rank positions, every second path (drawn) with one level whose siblings contain the running hash itself (tie: "
                        "duplicate child); each on ZkMerkleProof::{verify, verify_with_positions, from_unsorted}, "
                        "insert_at_position, hash_node(_presorted) and, for canonical paths, inside a real non-dummy statement on the real leaf "
                        "circuit; thorough repeats with 6 seeds. distinct = (class, corruption kind)")
